@@ -128,7 +128,10 @@ class GenericNonMultiplicativeRegistry(
         # registered with its prefixed version.
         # TODO: Might be better to register them.
         names = self.parse_unit_name(unit_name)
-        assert len(names) == 1
+        if not names:
+            raise UndefinedUnitError(unit_name)
+        # With more than one reading (kilorads: kilo + rads or kilo + radian + s)
+        # take the first one, like get_name does.
         _, base_name, _ = names[0]
         try:
             return self._units[base_name].is_multiplicative
